@@ -102,14 +102,21 @@ def _r1(chk, repo, conj):
         tests = {_norm(t.ast): t for t in g.tests()}
         problems = []
         need = {
-            f"isinstance(self.target.likelihood.distribution,{fams})": ("F", "likelihood family"),
-            "isinstance(self.target.prior,Gamma)": ("F", "Gamma prior"),
-            "self.target.prior.dim!=1": ("T", "univariate Gamma"),
+            "likelihood family": [(f"isinstance(self.target.likelihood.distribution,{fams})", "F")],
+            "Gamma prior": [("isinstance(self.target.prior,Gamma)", "F")],
+            "univariate Gamma": [("self.target.prior.dim!=1", "T"), ("self.target.prior.dim==1", "F"), ("1!=self.target.prior.dim", "T"), ("1==self.target.prior.dim", "F")],
         }
-        for txt, (lab, what) in need.items():
-            t = tests.get(txt)
-            if t is None or not all(g.nodes[m].kind == "raisestmt" for m, l in g.succ[t.id] if l == lab):
-                problems.append(f"{what} is not enforced (`{txt}` -> raise)")
+        for what, alts in need.items():
+            # the failing edge of the test leads only to a raise (the normal end of the function is not reachable through it)
+            okn = False
+            for txt, lab in alts:
+                t = tests.get(txt)
+                if t is not None:
+                    tgt = [m for m, l in g.succ[t.id] if l == lab]
+                    if tgt and g.exit.id not in g.reachable_from(tgt):
+                        okn = True
+            if not okn:
+                problems.append(f"{what} is not enforced (`{alts[0][0]}` -> raise)")
         gp = [n for n in g.nodes if n.ast is not None and n.kind == "stmt" and isinstance(n.ast, ast.Assign) and isinstance(n.ast.value, ast.Call)
               and _norm(n.ast.value) == "_get_conjugate_parameter(self.target)"]
         if len(gp) != 1:
